@@ -14,7 +14,8 @@
 EXTENDS Seed
 
 CONSTANTS Dev,     \* "none" | "shift" | "nocheck" | "carry"
-          Lens     \* token-sequence lengths to enumerate for Dec
+          Lens,    \* token-sequence lengths to enumerate for Dec
+          CSuse    \* names of the checksum functions to check with (subset of CSnames)
 
 VARIABLE csn       \* the NAME of the checksum function of this behaviour (keeps the state small)
 
@@ -105,7 +106,7 @@ StepKey == /\ InScen /\ DOMAIN H.dec # {} /\ call.op \in {"Enc", "Key"} /\ Cardi
 Ret     == ~Idle /\ ResetCall(FALSE)
 
 MCNext == (Single \/ Start \/ StepVar \/ StepChk \/ StepRe \/ StepKey \/ Ret) /\ csn' = csn
-MCInit == Init /\ csn \in CSnames
+MCInit == Init /\ csn \in CSuse
 MCSpec == MCInit /\ [][MCNext]_mvars
 
 --------------------------------------------------------------------------
@@ -118,11 +119,14 @@ DefBijective ==
 \* the bounded-witness Decodes of the call spec = the fully quantified definition = checksum comparison
 DefDeclEquiv ==
     (call.op = "Dec" /\ call.wf) =>
-        /\ call.exp.ok <=> (\E e \in Ent : \E c \in {csf[e]} : Words(e, c) = call.t)
+        /\ call.exp.ok <=> (\E e \in Ent : \E c \in {csf[e]} : Encodes(e, c, call.t))   \* i.e. Words(e, c) = call.t
         /\ call.exp.ok <=> (CsOf(call.t) = csf[EntOf(call.t)])
 \* the statement of C20 for the specified codec, csf total
 ThmRoundTrip  == call.op = "Enc" => DecReply(call.exp, csf) = [ok |-> TRUE, e |-> call.e]
 ThmReencode   == (call.op = "Dec" /\ call.exp.ok) => Words(call.exp.e, csf[call.exp.e]) = call.t
 ThmExactlyOne == call.op = "Enc" => Cardinality({u \in Variants(call.exp) : DecReply(u, csf).ok}) = 1
+\* Encodes is Words-equality (Encodes only short-circuits)
+DefEncodes    == call.op = "Enc" => /\ Encodes(call.e, call.c, call.exp)
+                                    /\ \A u \in Variants(call.exp) : Encodes(call.e, call.c, u) <=> (Words(call.e, call.c) = u)
 ThmMalformed  == (call.op = "Dec" /\ ~call.wf) => ~call.exp.ok
 =============================================================================
